@@ -498,3 +498,14 @@ def run(ctx: Context):
         _must_pass(r, dn, lambda n: any(
             call_tail(c) in ("callback", "errback") and attr_path(c.func.value) == ps[0] for c in node_calls(n)),
             "firing the request's Deferred", _fact_excuse(dn, lambda op, l, rr: op == "false" and l == ps[1] + ".active"))
+
+
+# -- wake-up discipline (clause (d) of the design; the rules live in C03) --------------------------------
+# A read terminates only if every state change of fetcher / finder / share schedules the loop that reacts
+# to it; a handler that returns without doing so leaves the read waiting although every server answered.
+_run_termination = run
+
+
+def run(ctx: Context):   # noqa: F811
+    _run_termination(ctx)
+    ctx.include("C03", ["C03.1", "C03.3", "C03.6"], "C46.6")
